@@ -109,7 +109,9 @@ def rand_config(rnd, kind=None):
         cfg["packver"] = [p for p in pv if set(p) <= set(alpha)] or None
         cfg["prefver"] = None
     if kind == "rot":
-        cfg.update(rot=rnd.choice([True, "split", "ne", "two"]), alpha=rnd.choice(["ab", "abc", "abc"]), symmetry=False)
+        cfg.update(rot=rnd.choice([True, "split", "ne", "two", "perm"]), alpha=rnd.choice(["ab", "abc", "abc"]), symmetry=False)
+        if cfg["rot"] == "perm":
+            cfg["alpha"] = "abc"
         if cfg["rot"] == "split":  # cycles of one-way rules closed by a later equivalence: the union-find databases, frequent queries
             cfg.update(alpha="abc", db=rnd.choice(["RuleDB", "RuleDB", "RuleDBForgetStrategy"]), perc=rnd.choice([100, 100, 50]),
                        iterative=False, smallest=False)
@@ -129,6 +131,16 @@ def rand_config(rnd, kind=None):
         cfg["mode"] = rnd.choice(["", "rename"]) if cfg["params"] else ""
     if db == "RuleDBForest" and rnd.random() < 0.25 and not cfg["reverse_needed"] and cfg["sep"] != "reverse":
         cfg["reverse"] = False
+    return cfg
+
+
+def perm_config(rnd):
+    """a universe with a rotation and a transposition of three letters (equivalence paths of non-commuting relabellings)"""
+    cfg = rand_config(rnd, "rot")
+    if cfg["rot"] != "perm":
+        cfg.update(rot="perm", alpha="abc", patterns=upword.rand_patterns(rnd, "abc", 3, 2))
+        if cfg["db"] != "RuleDBForest" and rnd.random() < 0.5:
+            cfg["db"] = "RuleDBForest"
     return cfg
 
 
